@@ -1008,6 +1008,8 @@ class Translator:
                 continue
             if pn in self.sig[key]['threads']:
                 pl = self.set_place(a, c, line)
+                if pl[3] != ty:
+                    bad('argument `%s` of `%s` gets a place of type %s' % (pn, f.name, pl[3]), line)
                 threads.append(pl)
                 out.append(pl[4])
                 continue
